@@ -46,7 +46,7 @@ THEOREMS = [
     "time_delta_add_comm", "expression_affine", "expression_same_point", "expression_defined", "duration_format_irrelevant", "mixed_scale_refused", "meaningless_refused",
     "result_scale_fmt",
     "delta_to_jds_value", "delta_to_jds_normalised", "delta_from_to_jds",
-    "two_part_accuracy", "method_eqb_sound", "method_eqb_complete", "gen_is_model", "gen_laws_if_clean",
+    "two_part_accuracy", "method_eqb_sound", "method_eqb_complete", "gen_is_model", "gen_neg_is_model", "gen_laws_if_clean",
     "gen_delta_class_for_every_scale",
     "c03_sub_drops_days_refuted", "c03_add_collapses_refuted", "c03_neg_keeps_jds_refuted",
 ]
@@ -271,6 +271,29 @@ def translate_method(fn, self_kind):
     return guard, branches
 
 
+def translate_neg(cls):
+    """TimeDeltaArray.__neg__ -> 'NegAbsent' | 'NegUnknown' | '(NegBody <outcome>)'.
+    A body outside the grammar is NOT a refusal of the whole translation: the four binary methods stay tied, the
+    obligation gen_neg_is_model fails and the correspondence (unary minus on results of arithmetic) decides."""
+    fns = [n for n in cls.body if isinstance(n, ast.FunctionDef) and n.name == "__neg__"]
+    if not fns:
+        return "NegAbsent"
+    if len(fns) != 1:
+        return "NegUnknown"
+    fn = fns[0]
+    a = fn.args
+    if [x.arg for x in a.args] != ["self"] or a.vararg or a.kwarg or a.kwonlyargs or a.posonlyargs or fn.decorator_list:
+        return "NegUnknown"
+    try:
+        br = _Branch("KDelta", "KDelta")
+        oc = br.body(list(fn.body))
+    except Refuse:
+        return "NegUnknown"
+    if "Other" in oc:
+        return "NegUnknown"
+    return f"(NegBody {oc})"
+
+
 def translate_source(text):
     tree = ast.parse(text)
     classes = {n.name: n for n in tree.body if isinstance(n, ast.ClassDef)}
@@ -282,6 +305,7 @@ def translate_source(text):
         if len(fns) != 1:
             raise Refuse(f"{cls}.{meth}: {len(fns)} definitions")
         out[op] = translate_method(fns[0], KIND_OF_CLASS[cls])
+    out["__neg__"] = translate_neg(classes["TimeDeltaArray"])
     # the reflected / in-place operators must stay switched off, otherwise Python's dispatch is not the model's
     for cls in ("TimeArray", "TimeDeltaArray"):
         for meth in ("__radd__", "__rsub__"):
@@ -306,6 +330,7 @@ def gen_text(methods, refused, time_scales, delta_scales, delta_formats):
         guard, branches = methods[op] if not refused else (False, [])
         bl = emit.lst(f"({k}, {oc})" for k, oc in branches)
         lines.append(f"Definition gen_{op} : method := mkMethod {emit.b(guard)}\n  {bl}.")
+    lines.append(f"Definition gen_neg : neg_src := {methods.get('__neg__', 'NegUnknown') if not refused else 'NegUnknown'}.")
     lines.append("Definition gen_method (op : opname) : method :=\n  match op with TimeAdd => gen_TimeAdd | TimeSub => gen_TimeSub "
                  "| DeltaAdd => gen_DeltaAdd | DeltaSub => gen_DeltaSub end.")
     lines.append(f"Definition gen_time_scales : list string := {emit.lst(emit.s(x) for x in time_scales)}.")
@@ -341,9 +366,13 @@ def _hex(x):
     return float(x).hex()
 
 
-def gen_duration_days(rng):
+def gen_duration_days(rng, klass=None):
     """One duration in days (float), |x| <= 40000; returns (class label, value)."""
-    k = rng.choice(["whole", "whole", "subday", "subday", "mixed", "mixed", "mixed", "neg_mixed", "tiny", "edge", "decimal", "secs"])
+    k = klass or rng.choice(["whole", "whole", "subday", "subday", "mixed", "mixed", "mixed", "neg_mixed", "tiny", "pico", "edge", "decimal", "secs"])
+    if k == "pico":       # 1e-12 s .. 1e-6 s, both signs: below the resolution of 1 - jd2
+        return k, rng.choice([1, -1]) * rng.choice([1, 1, 2, 5, 9.5]) * 10.0 ** rng.randint(-12, -6) / 86400.0
+    if k == "carry":      # fractions that carry when two of them are added
+        return k, rng.randint(0, 300) + rng.choice([0.6, 0.7, 0.9, 0.5, 0.999999, rng.uniform(0.5, 1)])
     if k == "whole":
         return k, float(rng.randint(-40000, 40000))
     if k == "subday":
@@ -361,14 +390,14 @@ def gen_duration_days(rng):
     return k, rng.randint(-40000 * 86400, 40000 * 86400) / 86400.0
 
 
-def gen_delta_spec(rng, n, fmt=None):
+def gen_delta_spec(rng, n, fmt=None, klass=None):
     """n = 0: scalar, else array of n."""
     fmt = fmt or rng.choice(DELTA_FMTS)
     cnt = max(n, 1)
     labels, vals, vals2 = [], [], None
     two_part = fmt != "timedelta" and rng.random() < 0.15
     for _ in range(cnt):
-        lab, x = gen_duration_days(rng)
+        lab, x = gen_duration_days(rng, klass)
         labels.append(lab)
         if fmt == "timedelta":
             us = round(x * DAY_US)
@@ -414,9 +443,12 @@ def gen_scenario(rng, scales):
     scale = rng.choice(scales)
     other_scale = rng.choice([s for s in scales if s != scale])
     tf = rng.choice(TIME_FMTS)
+    kl = "carry" if rng.random() < 0.25 else None          # both durations with fractions >= 1/2: d + d2 carries
     return {"scale": scale, "other_scale": other_scale, "shape": shape,
             "t": gen_time_spec(rng, nt, tf), "t2": gen_time_spec(rng, nt, rng.choice([tf, tf, rng.choice(TIME_FMTS)])),
-            "d": gen_delta_spec(rng, nd), "d2": gen_delta_spec(rng, nd)}
+            "d": gen_delta_spec(rng, nd, klass=kl), "d2": gen_delta_spec(rng, nd, klass=kl),
+            "extra": [gen_delta_spec(rng, nd, klass=rng.choice([None, None, "carry", "neg_mixed"])) for _ in range(rng.randint(1, 4))],
+            "tiny": gen_delta_spec(rng, nd, klass="pico")}
 
 
 CORPUS = [   # earlier failures first (DESIGN 2.8)
@@ -431,6 +463,17 @@ CORPUS = [   # earlier failures first (DESIGN 2.8)
      "d": {"fmt": "days", "n": 0, "val": [_hex(30000.7)], "val2": None, "labels": ["decimal"], "np_scalar": False, "readonly": False},
      "d2": {"fmt": "timedelta", "n": 0, "val": [3 * DAY_US + 3600 * 10 ** 6], "val2": None, "labels": ["mixed"], "np_scalar": False, "readonly": False}},
 ]
+
+
+CORPUS.append(   # unary minus of a carried sum and of a picosecond duration (seed C03-a/3)
+    {"scale": "utc", "other_scale": "tai", "shape": "ss",
+     "t": {"fmt": "datetime", "n": 0, "val": ["2020-01-01T12:00:00"], "val2": None, "np_scalar": False},
+     "t2": {"fmt": "datetime", "n": 0, "val": ["2021-03-01T06:00:00"], "val2": None, "np_scalar": False},
+     "d": {"fmt": "days", "n": 0, "val": [_hex(0.7)], "val2": None, "labels": ["carry"], "np_scalar": False, "readonly": False},
+     "d2": {"fmt": "days", "n": 0, "val": [_hex(0.6)], "val2": None, "labels": ["carry"], "np_scalar": False, "readonly": False},
+     "extra": [{"fmt": "seconds", "n": 0, "val": [_hex(0.9 * 86400.0)], "val2": None, "labels": ["carry"], "np_scalar": False, "readonly": False},
+               {"fmt": "jd", "n": 0, "val": [_hex(-3.75)], "val2": None, "labels": ["neg_mixed"], "np_scalar": False, "readonly": False}],
+     "tiny": {"fmt": "seconds", "n": 0, "val": [_hex(1e-12)], "val2": None, "labels": ["pico"], "np_scalar": False, "readonly": False}})
 
 
 # ============================================================================= running midgard
@@ -681,6 +724,49 @@ def readout(col, scen_id, label, d, spec):
         col.direct.append(("operand_changed", {"scenario": scen_id, "step": label, "what": "format read-out changed the duration", "spec": spec}))
 
 
+def do_neg(col, scen_id, label, x, spec):
+    """-x on midgard against the model's negation of the very doubles x holds (check_neg); returns -x or None."""
+    base = {"scenario": scen_id, "step": f"-{label}", "operand": describe(x), "spec": spec}
+    s0 = snapshot(x)
+    px = parts(x)
+    mx = None
+    try:
+        mx = -x
+        pm = parts(mx)
+        if len(pm[0]) != len(px[0]) or tuple(mx.shape) != tuple(x.shape):
+            col.direct.append(("shape", dict(base, what=f"-{label} has shape {tuple(mx.shape)} for operand shape {tuple(x.shape)}")))
+            return None
+        for i in range(len(px[0])):
+            col.add("check_neg", emit.pair(dobj_term(x, i, px), f"(ObsObj {dobj_term(mx, i, pm)})"), dict(base, element=i, result=describe(mx)))
+    except Exception as e:
+        mx = None
+        for i in range(len(px[0])):
+            col.add("check_neg", emit.pair(dobj_term(x, i, px), "ObsErr"), dict(base, element=i, result=f"{type(e).__name__}: {e}"))
+    if snapshot(x) != s0:
+        col.direct.append(("operand_changed", dict(base, what=f"-{label} changed its operand")))
+    return mx
+
+
+def neg_chain(col, scen_id, label, x, t, spec):
+    """Unary minus applied to the duration x (a constructor result or a result of arithmetic):
+    t - x = t + (-x),  x + (-x) = 0,  -(-x) = x, each at 1 ns on the implementation's own doubles."""
+    from midgard.data.time import TimeDelta
+    if x is None:
+        return
+    n = f"-{label}"
+    mx = do_neg(col, scen_id, label, x, spec)
+    if mx is None:
+        return
+    a = do_op(col, scen_id, f"t-{label}", "-", t, x, spec)
+    b = do_op(col, scen_id, f"t+(-{label})", "+", t, mx, spec)
+    do_law(col, scen_id, "t-x=t+(-x)", a, b, [f"t-{label}", f"t+(-{label})", n], spec)
+    z = do_op(col, scen_id, f"{label}+(-{label})", "+", x, mx, spec)
+    zero = TimeDelta(0.0, scale=x.scale, fmt="days")
+    do_law(col, scen_id, "x+(-x)=0", z, zero, [f"{label}+(-{label})", n], spec)
+    mmx = do_neg(col, scen_id, f"(-{label})", mx, spec)
+    do_law(col, scen_id, "-(-x)=x", mmx, x, [n, f"-(-{label})"], spec)
+
+
 def exec_scenario(col, scen_id, spec):
     """All operations and laws of one scenario on the real implementation."""
     import numpy as np
@@ -717,28 +803,32 @@ def exec_scenario(col, scen_id, spec):
     # t - d = t + (-d): -d built from the negated input, and -d through the unary operator
     r6 = do_op(col, scen_id, "t+TimeDelta(-x)", "+", t, nd, spec)
     do_law(col, scen_id, "t-d=t+(-d)", r3, r6, ["t-d", "t+TimeDelta(-x)"], spec)
-    base = {"scenario": scen_id, "step": "-d", "operand": describe(d), "spec": spec}
-    s0 = snapshot(d)
-    try:
-        md = -d
-        pm = parts(md)
-        pd_ = parts(d)
-        for i in range(len(pd_[0])):
-            col.add("check_neg", emit.pair(dobj_term(d, i, pd_), f"(ObsObj {dobj_term(md, i, pm)})"), dict(base, element=i, result=describe(md)))
-    except Exception as e:
-        for i in range(len(parts(d)[0])):
-            col.add("check_neg", emit.pair(dobj_term(d, i), "ObsErr"), dict(base, element=i, result=f"{type(e).__name__}: {e}"))
-    if snapshot(d) != s0:
-        col.direct.append(("operand_changed", dict(base, what="-d changed d")))
+    neg_chain(col, scen_id, "d", d, t, spec)
     # d + d2 = d2 + d ; (d + d2) - d2 = d ; d + t = t + d
     s1 = do_op(col, scen_id, "d+d2", "+", d, d2, spec)
     s2 = do_op(col, scen_id, "d2+d", "+", d2, d, spec)
     do_law(col, scen_id, "d+d2=d2+d", s1, s2, ["d+d2", "d2+d"], spec)
     r7 = do_op(col, scen_id, "(d+d2)-d2", "-", s1, d2, spec) if s1 is not None else None
     do_law(col, scen_id, "(d+d2)-d2=d", r7, d, ["d+d2", "(d+d2)-d2"], spec)
+    # unary minus on results of arithmetic: carried sum, accumulated sum of 3-6 durations, differences, tiny durations
+    neg_chain(col, scen_id, "(d+d2)", s1, t, spec)
+    acc, acc_label = s1, "(d+d2"
+    for j, es in enumerate(spec.get("extra", [])):
+        e = ctor_delta(col, scen_id, f"extra{j}", es, sc)
+        if e is None or acc is None:
+            acc = None
+            break
+        acc = do_op(col, scen_id, f"{acc_label}+e{j})", "+", acc, e, spec)
+        acc_label = f"{acc_label}+e{j}"
+    if spec.get("extra"):
+        neg_chain(col, scen_id, acc_label + ")", acc, t, spec)
+    neg_chain(col, scen_id, "(d-d2)", do_op(col, scen_id, "d-d2", "-", d, d2, spec), t, spec)
+    if dd is not None:
+        neg_chain(col, scen_id, "(t2-t)", dd, t, spec)
+    if spec.get("tiny"):
+        neg_chain(col, scen_id, "tiny", ctor_delta(col, scen_id, "tiny", spec["tiny"], sc), t, spec)
     r8 = do_op(col, scen_id, "d+t", "+", d, t, spec)
     do_law(col, scen_id, "t+d=d+t", r1, r8, ["t+d", "d+t"], spec)
-    do_op(col, scen_id, "d-d2", "-", d, d2, spec)
     readout(col, scen_id, "d", d, spec)
     if s1 is not None:
         readout(col, scen_id, "(d+d2)", s1, spec)
@@ -773,6 +863,35 @@ def law_search(extra_specs=()):
         st, r = apply_op(sym, a, b)
         return r if st == "obj" else None
 
+    # unary minus on constructor results, on sums whose fractions carry, on accumulated sums and on tiny durations
+    try:
+        for scale in ("utc", "tt"):
+            t = Time(2458849.5, val2=0.3, scale=scale, fmt="jd")
+            zero = TimeDelta(0.0, scale=scale, fmt="days")
+            for fmt in DELTA_FMTS:
+                def mk(x):
+                    if fmt == "timedelta":
+                        return TimeDelta(timedelta(days=x), scale=scale, fmt=fmt)
+                    return TimeDelta(x * (86400.0 if fmt == "seconds" else 1.0), scale=scale, fmt=fmt)
+                a, b, c = mk(0.7), mk(0.6), mk(-3.9)
+                s3 = op("+", op("+", op("+", a, b), a), b)
+                cands = [("TimeDelta(0.7 d)", a), ("0.7 d + 0.6 d", op("+", a, b)), ("0.7+0.6+0.7+0.6 d", s3),
+                         ("-3.9 d - 0.6 d - 0.6 d", op("-", op("-", c, b), b)),
+                         ("1e-12 s", TimeDelta(1e-12, scale=scale, fmt="seconds")), ("-1e-9 s", TimeDelta(-1e-9, scale=scale, fmt="seconds")),
+                         ("t2 - t", op("-", Time(2459000.25, scale=scale, fmt="jd"), t))]
+                for lab, x in cands:
+                    if x is None:
+                        return {"what": f"could not build the duration {lab} ({fmt})", "scale": scale}
+                    mx = -x
+                    for name, lhs, rhs in (("t-x=t+(-x)", op("-", t, x), op("+", t, mx)), ("x+(-x)=0", op("+", x, mx), zero), ("-(-x)=x", -mx, x)):
+                        if differ(lhs, rhs):
+                            return {"what": f"law {name} fails on the implementation for x = {lab} (durations made in format {fmt!r})",
+                                    "law": name, "scale": scale, "x": describe(x), "minus_x": describe(mx),
+                                    "lhs": None if lhs is None else describe(lhs), "rhs": None if rhs is None else describe(rhs),
+                                    "how": f"from midgard.data.time import Time, TimeDelta; x = {lab} built from TimeDelta(..., scale={scale!r}, fmt={fmt!r}); "
+                                           f"t = Time(2458849.5, val2=0.3, scale={scale!r}, fmt='jd'); compare jd1+jd2 of both sides of {name}"}
+    except Exception as ex:
+        return {"what": f"{type(ex).__name__}: {ex} while evaluating the laws of unary minus"}
     epochs = [2458849.5, 2451545.0, 2440000.75]
     durs = [2.25, 0.25, -2.25, 30000.7, -12345.678, 1.0, 40000.0]
     for scale in ("utc", "gps"):
@@ -921,6 +1040,10 @@ def decide(ctx, col, verdicts, code):
                     op_quirk[(meta["scenario"], meta["step"])] = 3 if v == 6 else v
                 if v == 1 and isinstance(meta["result"], str):
                     op_quirk.setdefault((meta["scenario"], meta["step"]), 0)
+            elif fn == "check_neg":
+                key = ("neg", tuple(meta["operand"]["jd1_hex"]), tuple(meta["operand"]["jd2_hex"]), meta["operand"]["fmt"], meta["element"])
+                if v == 4:
+                    op_quirk[(meta["scenario"], meta["step"])] = 4
             elif fn == "check_law":
                 key = ("law", meta["law"], tuple(meta["lhs"]["jd1_hex"]), tuple(meta["lhs"]["jd2_hex"]), tuple(meta["rhs"]["jd2_hex"]), meta["element"])
             else:
@@ -965,12 +1088,17 @@ def run(ctx):
     if not ok:
         core.make(["theories/Model/C03_TimeArith.vo"])
     code = None
+    neg_code = None
     if not refused:
-        ans = ctx.coq_eval(REQ_GEN, "gen_quirks_code")
         import re
+        ans = ctx.coq_eval(REQ_GEN, "gen_quirks_code")
         m = re.search(r"=\s*\(?(-?\d+)\)?%?Z?\s*:\s*Z", ans)
         code = int(m.group(1)) if m else None
-    ctx.log(f"regenerated methods: refused={refused!r} gen_quirks_code={code}")
+        ans = ctx.coq_eval(REQ_GEN, "gen_neg_code")
+        m = re.search(r"=\s*\(?(-?\d+)\)?%?Z?\s*:\s*Z", ans)
+        neg_code = int(m.group(1)) if m else None
+    ctx.log(f"regenerated methods: refused={refused!r} gen_quirks_code={code} gen_neg_code={neg_code} "
+            "(0 = specification; __neg__: 4 = inherited ndarray.__neg__, -1 = body outside the model)")
 
     from midgard.data.time import Time
     scales = list(Time.SCALES)
@@ -1012,6 +1140,10 @@ def run(ctx):
                         {"kind": "regenerated_method", "method": "TimeArray.__add__", "gen_quirks_code": code,
                          "how": "t = Time(2458849.5, val2=0.3, scale='utc', fmt='jd'); d = TimeDelta(30000.7, scale='utc', fmt='days'); "
                                 "(t + d).jd1 + (t + d).jd2 misses the exact sum by 62.9 ns"})
+    if neg_code == 4:
+        ctx.finding("c03_neg_keeps_jds", QUIRK_WHAT["c03_neg_keeps_jds"],
+                    {"kind": "regenerated_method", "method": "TimeDeltaArray.__neg__ (absent: ndarray.__neg__ inherited)",
+                     "how": "d = TimeDelta(np.array([2.25]), scale='utc', fmt='days'); (-d).jd1, (-d).jd2 -> [2.], [0.25]"})
     if not ok:
         if not ctx.violations:
             def search():
@@ -1038,7 +1170,7 @@ def run(ctx):
               "1 ns), unary minus, 11 refusals (mixed scales, time+time, duration-time), constructor accuracy, 4 format read-outs, byte "
               "images/flags of operands and caller arrays before/after. distinct_nontrivial = distinct (operation, operand doubles, element) "
               "cases that produced a result + distinct law/constructor/read-out cases"),
-        extra={"gen_quirks_code": code, "translator_refusal": refused},
+        extra={"gen_quirks_code": code, "gen_neg_code": neg_code, "translator_refusal": refused},
     )
 
 
